@@ -582,6 +582,35 @@ def stage_kshape(ctx):
         ctx.broke('vacuity:kshape', f'a K shape could not be forced: {hits}')
 
 
+# ------------------------------------------------------------------------------------------------
+# stage: compression with an independent peer, across re-keys (RFC 4253 6.2: context re-initialised per exchange)
+
+def stage_compress(ctx):
+    from .. import minissh_selftest as T
+    okc = fails = 0
+    for comp in (b'zlib', b'zlib@openssh.com'):
+        for role in ('client', 'server'):
+            for rekey in (None, 'mini'):
+                if fails >= 3:
+                    break
+                f = T.mini_as_client if role == 'client' else T.mini_as_server
+                try:
+                    mini = sshutil.run(f(b'curve25519-sha256', b'aes128-ctr', b'hmac-sha2-256', comp=comp, rekey=rekey,
+                                         sizes=[0, 1, 40, 300, 5000, 32768]), timeout=120)
+                    okc += 1
+                    ctx.note_case(('compress', comp, role, rekey), nontrivial=True)
+                    ctx.count('compress.%s' % ('rekey' if rekey else 'plain'))
+                except Exception as e:
+                    fails += 1
+                    ctx.failing_input(
+                        f'independent RFC 4253 peer (MiniSSH as {role}) cannot keep talking to asyncssh with compression '
+                        f'{comp.decode()}{" across a re-key" if rekey else ""}: {e!r}',
+                        {'kind': 'compress', 'role': role, 'comp': comp.decode(), 'rekey': rekey, 'error': repr(e)})
+    ctx.cov['oracle']['compress_sessions_ok'] = okc
+    if okc < 4 and fails < 3:
+        ctx.broke('vacuity:compress', f'only {okc} compressed sessions ran')
+
+
 def run(ctx):
     ctx.cov['rule'] = ('(a) every packet asyncssh emits in sessions with the independent MiniSSH peer (both roles; every kex, '
                        'cipher and MAC MiniSSH implements; payload lengths 0..39, powers of two +-1 up to 32 KiB) judged by the '
@@ -589,12 +618,13 @@ def run(ctx):
                        'generated streams of well-formed, misaligned, short-padded, empty-payload and short-length packets '
                        'under generated chunkings; (c) key derivation with a toy hash injected into Kex.compute_key; (d) '
                        'echo sessions over 1-byte / random / coalescing wires with re-keying; (e) OpenSSH client against an '
-                       'asyncssh server; (f) handshakes with an independent server that forces the shared secret K through its mpint shapes. non-trivial = encrypted packet / more than one chunk / more than one digest block')
+                       'asyncssh server; (f) handshakes with an independent server that forces the shared secret K through its mpint shapes; (g) compressed sessions with the independent peer across re-keys. non-trivial = encrypted packet / more than one chunk / more than one digest block')
     ctx.cov['trusted_base'] += [
         'MiniSSH (harness/minissh.py, primitives from PyCA cryptography / hashlib only) as the independent RFC 4253 peer; '
         'its own self test incl. a cross check against the OpenSSH client is run by `python -m harness.minissh_selftest`',
-        'ciphers MiniSSH does not implement (arcfour*, blowfish, cast128, seed, aes192-cbc, umac, md5/96-bit MACs, zlib) '
-        'are exercised asyncssh<->asyncssh only (C01), where a symmetric framing error would cancel',
+        'ciphers MiniSSH does not implement (arcfour*, blowfish, cast128, seed, aes192-cbc, umac, md5/96-bit MACs) '
+        'are exercised asyncssh<->asyncssh only (C01), where a symmetric framing error would cancel; MiniSSH does implement '
+        'zlib / zlib@openssh.com compression (Python zlib, fresh context per key exchange) for the compression stage',
         'the receive loop is modelled byte for byte in its clear-text phase (Model/Packet.v) and, for every block / MAC size '
         'and the four encryption shim classes over abstract primitives, in its encrypted phase (Model/PacketEnc.v, tied to '
         'the real shim classes and send_packet/_recv_packet by running them with toy primitives); real ciphers and the '
@@ -612,6 +642,7 @@ def run(ctx):
         ctx.broke('stage:enc', repr(e))
     stage_minissh(ctx)
     stage_kshape(ctx)
+    stage_compress(ctx)
     stage_e2e(ctx)
     stage_openssh(ctx)
 
@@ -626,6 +657,16 @@ def replay(rp):
         return 1 if a != b else 0
     if str(rp.get('kind', '')).startswith('enc_'):
         return c02_enc.replay_enc(rp)
+    if rp.get('kind') == 'compress':
+        from .. import minissh_selftest as T
+        f = T.mini_as_client if rp['role'] == 'client' else T.mini_as_server
+        try:
+            sshutil.run(f(b'curve25519-sha256', b'aes128-ctr', b'hmac-sha2-256', comp=rp['comp'].encode(), rekey=rp['rekey'],
+                          sizes=[0, 1, 40, 300, 5000, 32768]), timeout=120)
+        except Exception as e:
+            print('still fails:', repr(e))
+            return 1
+        return 0
     if rp.get('kind') == 'kshape':
         from .. import minissh_selftest as T
         try:
